@@ -11,7 +11,7 @@ RULE = ("cases = (pair of equal-length arrays, dtype pair, ufunc) for all arrays
 ASSUMPTIONS = ["numpy on the decoded arrays is the reference (NaN matches NaN)", "float values are dyadic; only correctly rounded float ufuncs",
                "results must satisfy the run-length constructor invariant; two-operand results must have adjacent runs joined"]
 REQUIRED_FEATURES = ["boundaries_coincide", "boundaries_interleave", "boundaries_nested", "result_needs_rejoin", "scalar_left", "undefined_reference",
-                     "histogram", "concatenate", "reduction"]
+                     "histogram", "concatenate", "reduction", "reduction_of_unjoined_array"]
 BOUNDS = {"quick": "all pairs of arrays L<=3 over 3 values x all pairs of {bool,int8,int64,uint8,float64} x 13 binary ufuncs; L=4 for int64 x int64 (5 ufuncs); "
                    "scalars {2, 2.5, True, np.int8(3), np.float32(1.5)} both sides x 13 ufuncs, 6 unary ufuncs, sum/any/all/max/mean, histogram (1-4 bins, with range), "
                    "concatenate of 2-3 arrays, for all arrays L<=4",
@@ -86,6 +86,10 @@ def cases(shard, tier):
             if d1 == "int64" and L >= 2:
                 yield ["red", "int64big", list(t1), "mean"]
                 yield ["red", "int64big", list(t1), "max"]
+            if d1 in ("int64", "bool", "float64") and L >= 2:
+                for how in ("gt_low", "gt_high", "times0", "cat_self", "ne_first"):
+                    for name in ("sum", "any", "all", "max", "mean"):
+                        yield ["red2", d1, list(t1), name, how]
             for bins in (1, 2, 3, 4):
                 yield ["hist", d1, list(t1), bins, None]
             yield ["hist", d1, list(t1), 3, [-1.0, 3.0]]
@@ -164,6 +168,25 @@ def check(case, acc):
             acc.nontrivial()
     elif kind == "red":
         return _check_red(case, acc, a, ra)
+    elif kind == "red2":
+        # the reduced array is itself the result of an operation that keeps its operand's run boundaries (runs with equal values side by side)
+        how = case[4]
+        acc.feature("reduction_of_unjoined_array")
+        with np.errstate(all="ignore"):
+            try:
+                if how == "gt_low":
+                    da, rr = a > -1000, ra > -1000
+                elif how == "gt_high":
+                    da, rr = a > 1000, ra > 1000
+                elif how == "times0":
+                    da, rr = a * 0, ra * 0
+                elif how == "ne_first":
+                    da, rr = a != a[0], ra != a[0]
+                else:
+                    da, rr = np.concatenate([a, a]), np.concatenate([ra, RunLengthArray.from_array(a.copy())])
+            except Exception:  # noqa: BLE001
+                return acc.undefined()
+        return _check_red(["red", d1, t1, case[3]], acc, da, rr)
     elif kind == "hist":
         return _check_hist(case, acc, a, ra)
     else:
